@@ -62,6 +62,18 @@ fn main() {
         println!("{}", set.len());
         return;
     }
+    if args.prop == "decodable" {
+        use rs1090::prelude::DekuContainerRead;
+        // helper for the history checkers: which of the frames given on stdin (hex, one per line) does the library's
+        // byte-buffer entry point accept
+        let mut s = String::new();
+        std::io::Read::read_to_string(&mut std::io::stdin(), &mut s).unwrap();
+        for l in s.lines() {
+            let ok = hex::decode(l.trim()).ok().map(|b| util::guarded(|| rs1090::decode::Message::from_bytes((b.as_slice(), 0)).is_ok()).unwrap_or(false)).unwrap_or(false);
+            println!("{}", if ok { 1 } else { 0 });
+        }
+        return;
+    }
     if args.prop == "gen06" {
         props::c06::generate(&args);
         return;
